@@ -13,7 +13,8 @@ PAR = int(sys.argv[2]) if len(sys.argv) > 2 else 12
 OUT = "/verif/triage/mutation-survey2.json"
 done = json.load(open(OUT)) if os.path.exists(OUT) else {}
 def run(m):
-    if m["id"] in done:
+    recheck = os.environ.get("RECHECK") and m["id"] in done and done[m["id"]].get("status") == "survives"
+    if m["id"] in done and not recheck:
         return m["id"], done[m["id"]]
     tmp = tempfile.mkdtemp(prefix="verif-mut-")
     try:
@@ -23,6 +24,21 @@ def run(m):
         assert src[m["start"]:m["end"]].decode() == m["old"], m["id"]
         open(path, "wb").write(src[:m["start"]] + m["new"].encode() + src[m["end"]:])
         res = dict(file=m["file"], line=m["line"], func=m["func"], kind=m["kind"], old=m["old"][:120], new=m["new"][:120])
+        if recheck:
+            res["status"] = "survives"
+            os.makedirs(tmp + "/.out"); shutil.copy("/verif/known-findings.json", tmp + "/.out/")
+            q = subprocess.run([BIN, "checkall"], env=dict(ENV, VERIF_REPO=tmp, VERIF_DIR=tmp + "/.out"), capture_output=True, text=True)
+            alarms, cur, first = [], [], {}
+            for l in q.stdout.splitlines():
+                mm = re.match(r"== (C\d\d) exit=(\d+)", l)
+                if mm:
+                    if mm.group(2) != "0":
+                        alarms.append(mm.group(1)); first[mm.group(1)] = (cur[:1] or ["?"])[0][:200]
+                    cur = []
+                elif l.startswith("  FINDING") or l.startswith("  UNDECIDED"):
+                    cur.append(l.strip())
+            res["alarms"], res["first"] = alarms, first
+            return m["id"], res
         p = subprocess.run("go build ./... && go vet -vettool=/bin/true ./... >/dev/null 2>&1; go build ./...", shell=True, cwd=tmp + "/pkg/go", env=ENV, capture_output=True, text=True)
         if p.returncode != 0:
             res["status"] = "compile-fail"
